@@ -32,7 +32,7 @@ NSHARDS = {"quick": 16, "thorough": 16}
 K = {"quick": 2000, "thorough": 60000}
 N_RANDOM = {"quick": 40, "thorough": 5000}
 N_ROUNDTRIP = {"quick": 8, "thorough": 600}
-REQUIRE = {"texts:on_grid_exact_decimal": 10000, "texts:k_times_fl": 10000, "texts:fl_k_over_tps": 10000, "texts:off_grid": 2000,
+REQUIRE = {"gentrace_onto_an_existing_trace_file": 30, "texts:on_grid_exact_decimal": 10000, "texts:k_times_fl": 10000, "texts:fl_k_over_tps": 10000, "texts:off_grid": 2000,
            "texts:near_grid": 500, "texts:equal_arrivals": 500, "texts:beyond_end": 100, "texts:large": 10,
            "roundtrip_pipelines": 500, "deliveries_compared": 40000, "texts:close_pairs": 60}
 TPS_LIST = [1, 2, 3, 5, 7, 10, 20, 60, 100, 1000, 10000, 100000]
@@ -207,6 +207,22 @@ def judge(texts, tps, ticks, seen, order_bad, mon, form):
         mon.fail("file-order", f"tick {order_bad[0]}: pipeline t{order_bad[2]} delivered after t{order_bad[1]} (file order broken)", tps=tps)
 
 
+_REUSED = set()
+
+
+def _cleanup_reused():
+    for p_ in list(_REUSED):
+        try:
+            os.remove(p_)
+            os.rmdir(os.path.dirname(p_))
+        except OSError:
+            pass
+
+
+import atexit
+atexit.register(_cleanup_reused)
+
+
 def run_roundtrip(case, mon):
     import contextlib
     import tomlkit
@@ -218,7 +234,14 @@ def run_roundtrip(case, mon):
     params = dict(case["wparams"], ticks_per_second=tps, duration=case["duration"], num_segs=1)
     d = os.path.join(env.VERIF_DIR, ".work", f"c13-{os.getpid()}")
     os.makedirs(d, exist_ok=True)
-    pf, tf = os.path.join(d, "p.toml"), os.path.join(d, "t.csv")
+    # every second round trip regenerates a trace file that already exists (`gentrace -f` onto the previous,
+    # usually longer or shorter, trace of this process): the file must then hold the new trace and nothing else
+    reuse = case["wparams"]["random_seed"] % 2 == 0
+    pf, tf = os.path.join(d, "p.toml"), os.path.join(d, "t-regenerated-in-place.csv" if reuse else "t.csv")
+    if reuse:
+        if os.path.exists(tf):
+            mon.count("gentrace_onto_an_existing_trace_file")
+        _REUSED.add(tf)
     try:
         t = tomlkit.table()
         t.update(params)
@@ -263,6 +286,8 @@ def run_roundtrip(case, mon):
             mon.hit({"tps": tps, "pipelines": len(gen_tick), "first_texts": texts[:5]})
     finally:
         for p_ in (pf, tf):
+            if p_ in _REUSED:
+                continue
             try:
                 os.remove(p_)
             except OSError:
